@@ -456,6 +456,28 @@ def run(tier, seed):
             chk.violation('a completion callback that closes the connection (loss reported synchronously): impl differs from model in %s' % (
                 ','.join(sorted(set(d[0] for d in dif)))), dict(kind='spec->code lose in callback', module='c08', cfg=k2,
                                                                   diff=[(a, repr(b), repr(c)) for a, b, c in dif]))
+    # ... and a disconnect callback that issues a further call on the dying connection: it fails with the loss like the
+    # others (the model's Issue ; Issue ; Lose)
+    for k2 in ({'dl': False, 'ret': 'nocheck', 'nr': False}, {'dl': True, 'ret': 'nocheck', 'nr': False}):
+        k1 = {'dl': True, 'ret': 'nocheck', 'nr': False}
+        acts = [('Issue', (1, core_freeze(k1))), ('Issue', (2, core_freeze(k2))), ('Lose', ())]
+        try:
+            ids = walk(gb, acts)
+        except KeyError:
+            continue
+        drv = CallsDriver([1, 2])
+        try:
+            drv.do_Issue(1, k1)
+            drv.conn.notifyOnDisconnect(lambda c, r, drv=drv, k2=k2: drv.do_Issue(2, k2))
+            drv.do_Lose()
+            dif = core.diff_states(gb.nodes[ids[-1]], drv.project())
+        except Exception:
+            dif = [('exception', 'none', core.traceback_str()[-300:])]
+        nsync += 1
+        if dif:
+            chk.violation('a call issued from a disconnect callback while the loss is handled: impl differs from model in %s' % (
+                ','.join(sorted(set(d[0] for d in dif)))), dict(kind='spec->code call from disconnect callback', module='c08', cfg=k2,
+                                                                  diff=[(a, repr(b), repr(c)) for a, b, c in dif]))
     chk.traces += nsync
     chk.notes['synchronous_replies'] = nsync
     # 3. code -> spec: random executions with the full alphabet, larger than the model constants
